@@ -58,7 +58,24 @@ def tokens(cell):
 def check_case(case):
     res = Res()
     spec = railed_spec(case)
-    s = build(spec)
+    if case.get("recfg"):
+        # the report is asked for, THEN the component's phase configuration is set (no other edit), then the report is asked for again with the same
+        # arguments: the second report describes the system as it is now
+        spec0 = copy.deepcopy(spec)
+        for c in spec0["comps"]:
+            if c["n"] == case["who"]:
+                c["pc"] = None
+        s = build(spec0)
+        try:
+            quiet_call(s.rail_rep, vtol=1e-6, itol=1e-6)
+            if case["recfg"] == "twice":
+                quiet_call(s.rail_rep, vtol=1e-6, itol=1e-6)
+        except (RuntimeError, ValueError):
+            pass
+        s.set_comp_phases(case["who"], copy.deepcopy([c for c in spec["comps"] if c["n"] == case["who"]][0]["pc"]))
+        res.classes.add("reconfigured-between-reports")
+    else:
+        s = build(spec)
     if case.get("rerail"):
         # an analysis, then the rail of one owner is changed through change_comp (children attached by name), then the report
         from ..sysmodel import make_comp
@@ -264,6 +281,8 @@ def gen_cases(tier):
                         opts = pc_options(c, PH2, full=False)[1:2]
                         for pc in opts:
                             yield dict(fam="tree", f=f, pal=pal, mask=list(mask), by_rail=bool(any(mask)), who=c["n"], pc=pc)
+                            if any(mask):
+                                yield dict(fam="tree", f=f, pal=pal, mask=list(mask), by_rail=bool(any(mask)), who=c["n"], pc=pc, recfg="once")
     TM = Trees(["RL", "LRc", "PSc"], L8M)
     for n in (1, 2, 3):
         for f in TM.iter_forests(n):
@@ -298,5 +317,6 @@ def main(tier):
         rule="E1-rail: every tree n<=3 (4 thorough) over {RLoss, Converter, LinReg, PSwitch, 1-input PMux, a converter and a load that always warn, PLoad, loss-RLoad} x every "
              "subset of non-load components (incl. the source) owning a rail x children attached by name / by rail x (no phases | one phase-configured component); plus every "
              "1..3-input PMux system of C05 with rails on all inputs. Oracle recomputed from the solve() table: rail set per phase, voltage = owner's Vout, sums of Iin/Power/Loss, "
+             "Also: the report asked for, then ONLY set_comp_phases(), then the report again with the same arguments. "
              "warning tokens as a set; no rails => identical to solve(); never None, never raises. non-trivial = a rail feeding >=2 rows.",
         assumptions=["rail Efficiency column not constrained by the statement", "one palette per run"])
